@@ -252,6 +252,31 @@ def run(world, rep, tier, only=None):
         rep.ob("C17.b", site(rc, "dirty in-use victim is written before reuse"), s not in r4,
                "with the entry dirty and in use, reuse is reachable only through raw_write_blk")
 
+    # ------------------------------------------------------------------ C17.e what was read from the device never replaces a cached block
+    # unix_read_blk64() drops the cache mutex while it reads; a block may have been written (and cached, dirty)
+    # meanwhile.  When the freshly read blocks are saved in the cache, a block that is in the cache by then is the
+    # newer one: the copy into a cache slot happens only for a slot just taken over because the block was absent.
+    rd_ = ufns.get("unix_read_blk64")
+    if rd_ is None:
+        raise Broken("unix_read_blk64 vanished")
+    saves = [n for n in calls_to(rd_, "memcpy", "__builtin___memcpy_chk")
+             if T.last_field(arg(n, 0) or {}) == ("unix_cache", "buf")]
+    rep.floor("C17.e copies into a cache slot in unix_read_blk64", len(saves), 1)
+    for i, sv in enumerate(saves):
+        from vlib import rulelib as _rl
+        hb_ = _rl.loop_head(rd_, sv)
+        body_ = _rl.loop_body(rd_, hb_) if hb_ is not None else set(rd_.nodes())
+        # the look-up that counts is the one made while saving (same loop turn), not the one made before the read
+        inner = [(t, a) for (b_, t, a) in rd_.control_literals(sv) if rd_.block_end(b_) in body_ and b_ != hb_]
+        absent = any((not t) and (any(c.get("fn") == "find_cached_block" for c in T.calls(a)) or
+                                  depends_on(rd_, a, lambda y: isinstance(y, dict) and y.get("k") == "c" and
+                                             y.get("fn") == "find_cached_block", depth=1)) for t, a in inner)
+        took = [c for c in calls_to(rd_, "reuse_cache") if hb_ is None or c in loop_body(rd_, hb_)]
+        fresh = bool(took) and rd_.dominated_by(sv, took) and (hb_ is None or not rd_.reach([rd_.node(hb_, 0)], avoid=took) & {sv})
+        rep.ob("C17.e", site(rd_, "read data copied only into a slot taken for an absent block#%d" % i), absent or fresh,
+               "`%s` (line %d) is under `!find_cached_block(...)`: %s; or every path of this loop turn to it passes reuse_cache(): %s" %
+               (sv.text()[:40], sv.line, absent, fresh))
+
     # ------------------------------------------------------------------ C17.c error flow
     # write side only: "a failed device write is reported to the caller"
     ERR_FUNCS = ("raw_write_blk", "flush_cached_blocks", "reuse_cache",
